@@ -15,7 +15,8 @@
 (*                                  returned to the caller (o = accept)    *)
 (* The monitor derives the VIEW of every datagram from the concrete fields *)
 (* with UdpMatchOps!View and judges with UdpMatchOps!Matches; it keeps     *)
-(* only observable history.  `claim` (present in replayed generator cases) *)
+(* only observable history.  dec = the datagram is a DNS response          *)
+(* (decodable, QR = 1).  `claim` (present in replayed generator cases) *)
 (* is the view the generator intended: a difference is an ADAPTER error of *)
 (* the harness, reported separately, never a violation.                    *)
 EXTENDS Naturals, Sequences, FiniteSets, TLC, Json, IOUtils, UdpMatchOps
@@ -54,11 +55,18 @@ DgramOK ==
     /\ DgramT
     /\ Len(hist[e.t]) < Cap                            \* C16_AtMostThree
     /\ Has("claim") => View(txs[e.t], e) = e.claim     \* harness consistency
+LastFromServer(t) == Len(hist[t]) > 0 /\ FromServer(hist[t][Len(hist[t])].v)
+ErrorJustified ==
+    \/ \A t \in 1..Len(hist) : Len(hist[t]) = 0
+    \/ \E t \in 1..Len(hist) : (Len(hist[t]) = Cap \/ LastFromServer(t))
 DoneOK ==
     /\ ~fin
     /\ e.o \in {"accept", "error", "timeout"}
     \* C16_AcceptOnlyMatching, C16_NoAcceptAfterCap
     /\ e.o = "accept" => \E tp \in Source(e.tag) : Matches(hist[tp[1]][tp[2]].v, c.cr)
+    \* C16_ForeignIgnored: an error is owed to a datagram from the server, to the cap, or to
+    \* nothing that was received at all -- never to a datagram from elsewhere
+    /\ e.o = "error" => ErrorJustified
 
 \* evaluate a state-level condition as a value (TLC would otherwise split its disjunctions into
 \* separate, identical successor states)
@@ -83,6 +91,8 @@ Why ==
         ELSE "ADAPTER: concrete datagram does not have the view the generator intended"
     ELSE IF e.ev = "done" THEN
         IF fin THEN "ADAPTER: the query ended twice"
+        ELSE IF e.o = "error" THEN
+            "C16_ForeignIgnored: the query ended in an error on a datagram that did not come from the queried address and port"
         ELSE IF e.o = "accept" /\ Source(e.tag) = {} THEN
             "C16_NoAcceptAfterCap: completed with content that is not one of the (at most three per transmission) examined datagrams"
         ELSE "C16_AcceptOnlyMatching: completed with a datagram that does not match"
